@@ -7,6 +7,8 @@ import Nlmodel.Model.Pipeline
 import Nlmodel.Proofs.Lemmas.ResolveHeap
 import Nlmodel.Proofs.Lemmas.ResolveFn
 import Nlmodel.Proofs.Lemmas.Resolve7Top
+import Nlmodel.Proofs.Lemmas.AlphaTop
+import Nlmodel.Proofs.Lemmas.AlphaOnTop
 namespace Nl
 namespace C09
 
@@ -137,6 +139,42 @@ theorem C09_undeclared_is_reference_error (n : Text) (st : RState) (h : st.resol
   simp [resolveE, h]
 
 example : (resolveProgram (.cons (.expr (.ident ['z'])) .nil)).toOption = none := by decide
+
+/-! ### alpha-equivalence (session 7): WHICH identifiers a program uses is irrelevant, only the binding structure matters
+
+"A name always means the innermost enclosing declaration visible at that point" has a consequence that can be stated without
+mentioning scopes at all: renaming the identifiers of a program consistently changes NOTHING.  `Lemmas/Alpha*.lean` prove it for the
+model of the real resolver (`symbols.rs` + the name handling of `compiler.rs`) by mutual induction over all syntactic classes: if the
+resolver state is the image of another one under `f`, resolving the renamed tree gives the SAME resolved tree (same binder ids, same
+slots, same errors at the same place).  Resolved trees contain no names, so the bytecode is identical. -/
+
+/-- for every renaming `f` that is injective ON THE IDENTIFIERS OF THE PROGRAM, keeps builtin names builtin (calls of `print`,
+    `type`, ... are resolved by name first) and keeps the empty name (an anonymous function literal) empty: the renamed program
+    compiles to exactly the same resolved tree and bytecode, or fails with the same error -/
+theorem C09_alpha_equivalence (f : Text → Text) (ast : Block)
+    (hinj : ∀ a ∈ Alpha.namesB ast, ∀ b ∈ Alpha.namesB ast, f a = f b → a = b)
+    (hbuiltin : ∀ n ∈ Alpha.namesB ast, Builtin.resolve (f n) = Builtin.resolve n)
+    (hempty : ∀ n ∈ Alpha.namesB ast, (f n).isEmpty = n.isEmpty) :
+    compileProgram (Alpha.renB f ast) = compileProgram ast :=
+  Alpha.alpha_compile_names f ast hinj hbuiltin hempty
+
+/-- consequently the machine's answer (for every budget) and the definitional answer (for every fuel) are the same -/
+theorem C09_alpha_same_run (f : Text → Text) (hf : Alpha.Renaming f) (ast : Block) (budget : Nat) :
+    (compileProgram (Alpha.renB f ast)).map (fun p => VM.run {} p.2 budget) =
+      (compileProgram ast).map (fun p => VM.run {} p.2 budget) :=
+  Alpha.alpha_run hf ast budget
+
+theorem C09_alpha_same_meaning (f : Text → Text) (hf : Alpha.Renaming f) (ast : Block) (F : Nat) :
+    (resolveProgram (Alpha.renB f ast)).map (Spec.evalProgram F) = (resolveProgram ast).map (Spec.evalProgram F) :=
+  Alpha.alpha_spec hf ast F
+
+/-- the key step: looking the renamed name up in the renamed scopes finds what looking the name up in the original scopes finds -/
+theorem C09_alpha_lookup (f : Text → Text) (hf : Alpha.Renaming f) (st : RState) (n : Text) :
+    (Alpha.mapSt f st).resolve (f n) = st.resolve n :=
+  Alpha.mapSt_resolve hf st n
+
+/-- non-vacuity: prefixing every non-builtin name with `_` is such a renaming -/
+theorem C09_alpha_renaming_exists : Alpha.Renaming Alpha.pre := Alpha.pre_renaming
 
 end C09
 end Nl
